@@ -30,7 +30,7 @@ RECEIVER_METHODS = {
 class Taint:
     def __init__(self, helper, is_source, cut=(), propagate=SHALLOW,
                  name_hook=None, path_funcs=False, follow_params=True,
-                 attr_propagates=True):
+                 attr_propagates=True, param_cut=None):
         self.H = helper
         self.prog = helper.prog
         self.cfgs = helper.cfgs
@@ -46,6 +46,7 @@ class Taint:
                 'os.path.realpath', 'os.path.expanduser', 'builtins.str'}
         self.follow_params = follow_params
         self.attr_propagates = attr_propagates
+        self.param_cut = param_cut      # (func, name) -> bool
         self._param_memo = {}
         self._ret_memo = {}
 
@@ -77,7 +78,9 @@ class Taint:
                 if isinstance(v, ast.AST):
                     r = self.tainted(v, func, dn, env, depth + 1, seen2)
                 elif v[0] == 'param':
-                    if self.follow_params:
+                    if self.follow_params and not (
+                            self.param_cut is not None and
+                            self.param_cut(func, e.id)):
                         r = self._param(func, e.id, seen2, depth)
                 elif v[0] in ('iter', 'with', 'unpack'):
                     r = self.tainted(v[1], func, dn, env, depth + 1, seen2)
